@@ -77,6 +77,20 @@ def check(rep, tier):
                 rep.count("reshape-history")
             except Exception as e:
                 rep.violation("crash %s" % type(e).__name__, "re-shaped Snowflake.run raises %r for %s -> %s" % (e, cfg, shp2), dict(config=cfg, error=repr(e)))
+        if ri % 4 == 3:
+            # history on one object: the cooling program is edited in place (same dt and t_tot) and the object is run again;
+            # the shelf temperature of every step is the one of the program configured NOW
+            warm = min(cfg["prog"]["start"], cfg["prog"]["end"] + 25)
+            prog2 = dict(cfg["prog"], end=warm, holds=[h for h in cfg["prog"]["holds"] if warm <= h["temp"]])
+            try:
+                def edit(S_, prog2=prog2, warm=warm):
+                    S_.opcond.cooling["end"] = warm
+                    S_.opcond.holding = [dict(h) for h in prog2["holds"]] or None
+                r3 = fr.rerun(r, edit)
+                todo.append((dict(cfg, prog=prog2, history="run, cooling program edited in place, run"), r3, "after editing the cooling program of the same object: "))
+                rep.count("program-edit-history")
+            except Exception as e:
+                rep.violation("crash %s" % type(e).__name__, "Snowflake.run after an in-place program edit raises %r for %s" % (e, cfg), dict(config=cfg, error=repr(e)))
         for cfg, r, pre in todo:
           nv0 = len(rep.violations)
           for _once in (0,):
